@@ -320,11 +320,22 @@ pub proof fn thm_c17_copies_are_identical_subtrees(spans: Seq<RawSpan>, end: Ins
     }
 }
 
-// C17: the attachments parked by the two copies are the same items under corresponding keys
+// C17: to_span_records(parent) returns what one collector cycle delivers for the same set pushed
+// under a span with that context (one collection, nothing parked before): the set's records with
+// their own attachments mounted; a second mount with what is left changes nothing because nothing
+// that is left is addressed to a span of the set
+pub proof fn lemma_dm_merge_empty(l: DMap)
+    ensures dm_merge(Map::<SpanId, Seq<DangV>>::empty(), l) =~= l,
+{
+    assert forall|k: SpanId| #[trigger] l.contains_key(k) implies dm_merge(Map::<SpanId, Seq<DangV>>::empty(), l)[k] == l[k] by {
+        assert(Seq::<DangV>::empty() + l[k] =~= l[k]);
+    }
+}
+
 pub proof fn thm_c17_to_span_records_is_the_collector_path(ls: LocalSpansInner, t: TraceId, p: SpanId, a: Anchor)
     ensures
         post_recs(seq![CollV { set: SpanSet::LocalSpansInner(ls), trace_id: t, parent_id: p }], Map::empty(), a)
-            == mount_recs(amend_local_recs(ls.spans@, ls.end_time, t, p, a), amend_local_dm(ls.spans@, p, Map::empty(), a)),
+            == mount_recs(local_recs(ls.spans@, ls.end_time, t, p, a), local_left(ls.spans@, ls.end_time, t, p, a)),
 {
     let c = CollV { set: SpanSet::LocalSpansInner(ls), trace_id: t, parent_id: p };
     let cs = seq![c];
@@ -332,7 +343,165 @@ pub proof fn thm_c17_to_span_records_is_the_collector_path(ls: LocalSpansInner, 
     assert(cs.last() == c);
     assert(colls_recs(cs.drop_last(), a) =~= Seq::<RecV>::empty());
     assert(colls_dm(cs.drop_last(), Map::empty(), a) =~= Map::<SpanId, Seq<DangV>>::empty());
-    assert(colls_recs(cs, a) =~= amend_local_recs(ls.spans@, ls.end_time, t, p, a));
+    assert(colls_recs(cs, a) =~= local_recs(ls.spans@, ls.end_time, t, p, a));
+    lemma_dm_merge_empty(local_left(ls.spans@, ls.end_time, t, p, a));
+}
+
+// C17 (D10): nothing a local set leaves parked is addressed to one of its own spans -- so a second
+// copy of the set in the same trace (same span ids) cannot receive or lose attachments through the
+// batch-wide map
+pub proof fn lemma_mount_dm_removes_ids(recs: Seq<RecV>, d: DMap, i: int)
+    requires 0 <= i < recs.len(),
+    ensures !mount_dm(recs, d).contains_key(recs[i].span_id),
+    decreases recs.len(),
+{
+    if i < recs.len() - 1 {
+        lemma_mount_dm_removes_ids(recs.drop_last(), d, i);
+        assert(recs.drop_last()[i] == recs[i]);
+    }
+}
+
+pub proof fn thm_c17_leftover_never_targets_the_sets_own_spans(spans: Seq<RawSpan>, end: Instant, t: TraceId, p: SpanId, a: Anchor, i: int)
+    requires 0 <= i < local_recs(spans, end, t, p, a).len(),
+    ensures !local_left(spans, end, t, p, a).contains_key(local_recs(spans, end, t, p, a)[i].span_id),
+{
+    let r = amend_local_recs(spans, end, t, p, a);
+    let d = amend_local_dm(spans, p, Map::empty(), a);
+    thm_c01_mount_keeps_every_record_once(r, d);
+    lemma_mount_dm_removes_ids(r, d, i);
+}
+
+// C17 (D10): two copies of one captured set -- in the same trace or in different ones -- are
+// delivered as identical subtrees: record by record the same id, name, times, properties AND
+// events; only the trace id and the parent of the set's roots follow the parent they hang under
+pub open spec fn same_payload(x: RecV, y: RecV) -> bool {
+    x.span_id == y.span_id && x.name == y.name && x.begin == y.begin && x.duration == y.duration
+        && x.properties == y.properties && x.events == y.events
+}
+
+pub open spec fn agree_off(d1: DMap, d2: DMap, p1: SpanId, p2: SpanId) -> bool {
+    forall|k: SpanId| k != p1 && k != p2 ==> (#[trigger] d1.contains_key(k) <==> d2.contains_key(k)) && (d1.contains_key(k) ==> d1[k] == d2[k])
+}
+
+pub proof fn lemma_attach_payload(x: RecV, y: RecV, items: Seq<DangV>)
+    requires same_payload(x, y),
+    ensures same_payload(attach(x, items), attach(y, items)),
+    decreases items.len(),
+{
+    if items.len() > 0 { lemma_attach_payload(x, y, items.drop_last()); }
+}
+
+pub proof fn lemma_mount_agree(r1: Seq<RecV>, r2: Seq<RecV>, d1: DMap, d2: DMap, p1: SpanId, p2: SpanId)
+    requires
+        r1.len() == r2.len(),
+        forall|i: int| 0 <= i < r1.len() ==> same_payload(#[trigger] r1[i], r2[i]) && r1[i].span_id != p1 && r1[i].span_id != p2,
+        agree_off(d1, d2, p1, p2),
+    ensures
+        agree_off(mount_dm(r1, d1), mount_dm(r2, d2), p1, p2),
+        mount_recs(r1, d1).len() == r1.len(), mount_recs(r2, d2).len() == r1.len(),
+        forall|i: int| 0 <= i < r1.len() ==> same_payload(#[trigger] mount_recs(r1, d1)[i], mount_recs(r2, d2)[i]),
+    decreases r1.len(),
+{
+    if r1.len() > 0 {
+        let a1 = r1.drop_last();
+        let a2 = r2.drop_last();
+        assert forall|i: int| 0 <= i < a1.len() implies same_payload(#[trigger] a1[i], a2[i]) && a1[i].span_id != p1 && a1[i].span_id != p2 by {
+            assert(a1[i] == r1[i] && a2[i] == r2[i]);
+        }
+        lemma_mount_agree(a1, a2, d1, d2, p1, p2);
+        let e1 = mount_dm(a1, d1);
+        let e2 = mount_dm(a2, d2);
+        let x = r1.last();
+        let y = r2.last();
+        assert(same_payload(x, y) && x.span_id != p1 && x.span_id != p2) by { assert(r1[r1.len() - 1] == x && r2[r2.len() - 1] == y); }
+        assert(e1.contains_key(x.span_id) <==> e2.contains_key(x.span_id));
+        if e1.contains_key(x.span_id) {
+            assert(e1[x.span_id] == e2[x.span_id]);
+            lemma_attach_payload(x, y, e1[x.span_id]);
+        }
+        assert(same_payload(mount_step_rec(x, e1), mount_step_rec(y, e2)));
+        assert forall|i: int| 0 <= i < r1.len() implies same_payload(#[trigger] mount_recs(r1, d1)[i], mount_recs(r2, d2)[i]) by {
+            if i < r1.len() - 1 {
+                assert(mount_recs(r1, d1)[i] == mount_recs(a1, d1)[i]);
+                assert(mount_recs(r2, d2)[i] == mount_recs(a2, d2)[i]);
+            }
+        }
+        assert forall|k: SpanId| k != p1 && k != p2 implies
+            (#[trigger] mount_dm(r1, d1).contains_key(k) <==> mount_dm(r2, d2).contains_key(k)) && (mount_dm(r1, d1).contains_key(k) ==> mount_dm(r1, d1)[k] == mount_dm(r2, d2)[k]) by {
+            assert(e1.contains_key(k) <==> e2.contains_key(k));
+        }
+    }
+}
+
+pub proof fn lemma_local_dm_agree(spans: Seq<RawSpan>, p1: SpanId, p2: SpanId, a: Anchor)
+    ensures agree_off(amend_local_dm(spans, p1, Map::empty(), a), amend_local_dm(spans, p2, Map::empty(), a), p1, p2),
+    decreases spans.len(),
+{
+    if spans.len() > 0 {
+        lemma_local_dm_agree(spans.drop_last(), p1, p2, a);
+        let s = spans.last();
+        let e1 = amend_local_dm(spans.drop_last(), p1, Map::empty(), a);
+        let e2 = amend_local_dm(spans.drop_last(), p2, Map::empty(), a);
+        if s.raw_kind != RawKind::Span {
+            let k1 = amended_parent(s, p1);
+            let k2 = amended_parent(s, p2);
+            assert forall|k: SpanId| k != p1 && k != p2 implies
+                (#[trigger] dm_park(e1, k1, dang_of(s, a)).contains_key(k) <==> dm_park(e2, k2, dang_of(s, a)).contains_key(k))
+                && (dm_park(e1, k1, dang_of(s, a)).contains_key(k) ==> dm_park(e1, k1, dang_of(s, a))[k] == dm_park(e2, k2, dang_of(s, a))[k]) by {
+                assert(e1.contains_key(k) <==> e2.contains_key(k));
+                if k == k1 { assert(k1 == s.parent_id && k2 == s.parent_id); }
+                if k == k2 { assert(k2 == s.parent_id && k1 == s.parent_id); }
+            }
+        }
+    }
+}
+
+pub open spec fn no_span_has_id(spans: Seq<RawSpan>, p: SpanId) -> bool {
+    forall|j: int| 0 <= j < spans.len() && spans[j].raw_kind == RawKind::Span ==> (#[trigger] spans[j]).id != p
+}
+
+pub proof fn lemma_local_recs_ids(spans: Seq<RawSpan>, end: Instant, t: TraceId, p: SpanId, a: Anchor, q: SpanId)
+    requires no_span_has_id(spans, q),
+    ensures forall|i: int| 0 <= i < amend_local_recs(spans, end, t, p, a).len() ==> (#[trigger] amend_local_recs(spans, end, t, p, a)[i]).span_id != q,
+    decreases spans.len(),
+{
+    if spans.len() > 0 {
+        assert(no_span_has_id(spans.drop_last(), q)) by {
+            assert forall|j: int| 0 <= j < spans.drop_last().len() && spans.drop_last()[j].raw_kind == RawKind::Span implies (#[trigger] spans.drop_last()[j]).id != q by {
+                assert(spans.drop_last()[j] == spans[j]);
+            }
+        }
+        lemma_local_recs_ids(spans.drop_last(), end, t, p, a, q);
+        assert(spans[spans.len() - 1] == spans.last());
+    }
+}
+
+pub proof fn thm_c17_copies_carry_identical_attachments(spans: Seq<RawSpan>, end: Instant, t1: TraceId, p1: SpanId, t2: TraceId, p2: SpanId, a: Anchor, i: int)
+    requires
+        // the spans the copies are pushed to are not spans of the set
+        no_span_has_id(spans, p1), no_span_has_id(spans, p2),
+        0 <= i < local_recs(spans, end, t1, p1, a).len(),
+    ensures
+        local_recs(spans, end, t2, p2, a).len() == local_recs(spans, end, t1, p1, a).len(),
+        same_payload(local_recs(spans, end, t1, p1, a)[i], local_recs(spans, end, t2, p2, a)[i]),
+        local_recs(spans, end, t1, p1, a)[i].trace_id == t1 && local_recs(spans, end, t2, p2, a)[i].trace_id == t2,
+{
+    let r1 = amend_local_recs(spans, end, t1, p1, a);
+    let r2 = amend_local_recs(spans, end, t2, p2, a);
+    let d1 = amend_local_dm(spans, p1, Map::empty(), a);
+    let d2 = amend_local_dm(spans, p2, Map::empty(), a);
+    thm_c01_one_record_per_local_span(spans, end, t1, p1, a);
+    thm_c01_one_record_per_local_span(spans, end, t2, p2, a);
+    thm_c01_mount_keeps_every_record_once(r1, d1);
+    thm_c01_mount_keeps_every_record_once(r2, d2);
+    lemma_local_recs_ids(spans, end, t1, p1, a, p1);
+    lemma_local_recs_ids(spans, end, t1, p1, a, p2);
+    assert forall|j: int| 0 <= j < r1.len() implies same_payload(#[trigger] r1[j], r2[j]) && r1[j].span_id != p1 && r1[j].span_id != p2 by {
+        thm_c17_copies_are_identical_subtrees(spans, end, t1, p1, t2, p2, a, j);
+    }
+    lemma_local_dm_agree(spans, p1, p2, a);
+    lemma_mount_agree(r1, r2, d1, d2, p1, p2);
+    thm_c17_copies_are_identical_subtrees(spans, end, t1, p1, t2, p2, a, i);
 }
 
 // C18: a record's duration is the (saturating) difference of the converted end and begin instants;
@@ -420,4 +589,66 @@ pub proof fn thm_c08_finished_trace_stays_forgotten_given_consistent_cut(a: ActM
 {
     thm_c08_retained_traces(a, b1, cancelable, ks1, anchor1);
     thm_c08_retained_traces(cy_final_act(a, b1, cancelable, ks1, anchor1), b2, cancelable, ks2, anchor2);
+}
+
+// ---------------------------------------------------------------------------
+// C06, "on each copy of a multi-parent span": two records of one batch that are copies of one span
+// (same span id, same content before mounting) carry the same attachments after mounting.  NOT
+// PROVABLE, and rightly so: mount gives everything parked under an id to the FIRST record with that
+// id and removes the key (mount_dm), so the second copy gets nothing.  The real collector produces
+// such batches: a span created with two parents that belong to the same trace is delivered under
+// each of them with the same id, and an event or property attached through its handle is parked
+// once per copy under that id (findings/D11 reproduces it on the real code: events per copy [2, 0]).
+// Kept as an obligation so that the check keeps reporting it; listed in known_findings.json, where
+// it is printed as KNOWN-FINDING instead of VIOLATION.  (For captured LOCAL span sets the same
+// defect, D10, was repaired: thm_c17_copies_carry_identical_attachments.)
+// ---------------------------------------------------------------------------
+pub proof fn thm_c06_each_copy_of_a_multi_parent_span_carries_its_attachments(recs: Seq<RecV>, d: DMap, i: int, j: int)
+    requires
+        0 <= i < j < recs.len(),
+        recs[i].span_id == recs[j].span_id, recs[i].properties == recs[j].properties, recs[i].events == recs[j].events,
+    ensures
+        mount_recs(recs, d)[i].events == mount_recs(recs, d)[j].events,
+        mount_recs(recs, d)[i].properties == mount_recs(recs, d)[j].properties,
+{
+}
+
+// what does hold: a span id that occurs once in the batch gets exactly what is parked under it
+pub proof fn thm_c06_single_copy_takes_everything_parked_for_it(recs: Seq<RecV>, d: DMap, i: int)
+    requires
+        0 <= i < recs.len(),
+        forall|j: int| 0 <= j < i ==> (#[trigger] recs[j]).span_id != recs[i].span_id,
+    ensures
+        mount_recs(recs, d)[i] == mount_step_rec(recs[i], d),
+    decreases recs.len(),
+{
+    if i < recs.len() - 1 {
+        assert forall|j: int| 0 <= j < i implies (#[trigger] recs.drop_last()[j]).span_id != recs.drop_last()[i].span_id by {
+            assert(recs.drop_last()[j] == recs[j] && recs.drop_last()[i] == recs[i]);
+        }
+        thm_c06_single_copy_takes_everything_parked_for_it(recs.drop_last(), d, i);
+        thm_c01_mount_keeps_every_record_once(recs.drop_last(), d);
+        assert(mount_recs(recs, d)[i] == mount_recs(recs.drop_last(), d)[i]);
+    } else {
+        assert forall|j: int| 0 <= j < recs.drop_last().len() implies (#[trigger] recs.drop_last()[j]).span_id != recs[i].span_id by {
+            assert(recs.drop_last()[j] == recs[j]);
+        }
+        lemma_mount_dm_keeps_other_keys(recs.drop_last(), d, recs[i].span_id);
+        thm_c01_mount_keeps_every_record_once(recs.drop_last(), d);
+        assert(recs.last() == recs[i]);
+    }
+}
+
+pub proof fn lemma_mount_dm_keeps_other_keys(recs: Seq<RecV>, d: DMap, k: SpanId)
+    requires forall|j: int| 0 <= j < recs.len() ==> (#[trigger] recs[j]).span_id != k,
+    ensures mount_dm(recs, d).contains_key(k) <==> d.contains_key(k), d.contains_key(k) ==> mount_dm(recs, d)[k] == d[k],
+    decreases recs.len(),
+{
+    if recs.len() > 0 {
+        assert forall|j: int| 0 <= j < recs.drop_last().len() implies (#[trigger] recs.drop_last()[j]).span_id != k by {
+            assert(recs.drop_last()[j] == recs[j]);
+        }
+        lemma_mount_dm_keeps_other_keys(recs.drop_last(), d, k);
+        assert(recs[recs.len() - 1].span_id != k);
+    }
 }
